@@ -45,6 +45,29 @@ def natErr (s : St) (calls : List Call) (e : Int) : NatRes :=
   { ret := e, abort := false, pkt := { tocCfg := 0, lens := [], size := 0, hdr := [] }, dtx := false, ok := true,
     st := s, calls }
 
+/-- Settings and running state as the ctl layer and earlier calls leave them (the C11 ctl
+    invariant on the settings; the running fields are set by `opus_encoder_init` and by the
+    decision chain).  The tie checks it on the pre-state of every recorded call. -/
+def stOk (s : St) : Bool :=
+  decide ((s.fs = 8000 ∨ s.fs = 12000 ∨ s.fs = 16000 ∨ s.fs = 24000 ∨ s.fs = 48000) ∧
+          (s.channels = 1 ∨ s.channels = 2) ∧
+          (s.userBitrate = OPUS_AUTO ∨ s.userBitrate = OPUS_BITRATE_MAX ∨
+             (500 ≤ s.userBitrate ∧ s.userBitrate ≤ 750000 * s.channels)) ∧
+          (s.userForcedMode = OPUS_AUTO ∨ (MODE_SILK_ONLY ≤ s.userForcedMode ∧ s.userForcedMode ≤ MODE_CELT_ONLY)) ∧
+          (s.userBandwidth = OPUS_AUTO ∨ (BW_NB ≤ s.userBandwidth ∧ s.userBandwidth ≤ BW_FB)) ∧
+          (BW_NB ≤ s.maxBandwidth ∧ s.maxBandwidth ≤ BW_FB) ∧
+          (s.forceChannels = OPUS_AUTO ∨ s.forceChannels = 1 ∨ s.forceChannels = 2) ∧
+          (s.streamChannels = 1 ∨ s.streamChannels = 2) ∧
+          (BW_NB ≤ s.bandwidth ∧ s.bandwidth ≤ BW_FB) ∧
+          (s.prevMode = 0 ∨ (MODE_SILK_ONLY ≤ s.prevMode ∧ s.prevMode ≤ MODE_CELT_ONLY)) ∧
+          (0 ≤ s.complexity ∧ s.complexity ≤ 10) ∧ (0 ≤ s.lossPerc ∧ s.lossPerc ≤ 100))
+
+/-- Frame sizes `frame_size_select` lets through: 2.5, 5, 10, 20, 40, 60, 80, 100, 120 ms. -/
+def legalFrame (fs frameSize : Int) : Bool :=
+  decide (400 * frameSize = fs ∨ 200 * frameSize = fs ∨ 100 * frameSize = fs ∨ 50 * frameSize = fs ∨
+          25 * frameSize = fs ∨ 50 * frameSize = 3 * fs ∨ 50 * frameSize = 4 * fs ∨ 50 * frameSize = 5 * fs ∨
+          50 * frameSize = 6 * fs)
+
 /-- opus_encoder.c:1154-1168: `none` = proceed. -/
 def entryCheck (s : St) (frameSize outDataBytes : Int) : Option Int :=
   let m := min 1276 outDataBytes
@@ -101,46 +124,80 @@ def lowBudgetGate (s : St) (frameSize : Int) (b : SizeBudget) : Bool :=
   decide (b.maxDataBytes < 3 ∨ b.bitrateBps < 3 * frameRate * 8 ∨
           (frameRate < 50 ∧ (b.maxDataBytes * frameRate < 300 ∨ b.bitrateBps < 2400)))
 
+/-- `tocmode` after :1276-1279. -/
+def lowMode0 (s : St) (frameSize : Int) : Int :=
+  if s.fs / frameSize > 100 then MODE_CELT_ONLY else if s.mode = 0 then MODE_SILK_ONLY else s.mode
+
+/-- 40 ms -> 2 x 20 ms if in CELT_ONLY or HYBRID mode (:1281). -/
+def lowC1 (s : St) (frameSize : Int) : Bool := s.fs / frameSize = 25 ∧ lowMode0 s frameSize ≠ MODE_SILK_ONLY
+
+/-- Condition of :1291 (1 x 60 ms, 2 x 40 ms, 2 x 60 ms SILK frames). -/
+def lowToSilk (s : St) (frameSize outDataBytes : Int) : Bool :=
+  outDataBytes = 1 ∨ (lowMode0 s frameSize = MODE_SILK_ONLY ∧ s.fs / frameSize ≠ 10)
+
+/-- `packet_code` (:1273-1303).  (`frame_rate<=16` at :1288 is tested after the 40 ms rewrite, which
+    only fires for `frame_rate == 25`, so it is a test on the original rate.) -/
+def lowCode (s : St) (frameSize outDataBytes : Int) : Int :=
+  if s.fs / frameSize ≤ 16 then
+    (if lowToSilk s frameSize outDataBytes then (if s.fs / frameSize ≤ 12 then 1 else 0) else 3)
+  else if lowC1 s frameSize then 1 else 0
+
+/-- `num_multiframes` (:1300). -/
+def lowNumMulti (s : St) (frameSize outDataBytes : Int) : Int :=
+  if s.fs / frameSize ≤ 16 ∧ ¬ lowToSilk s frameSize outDataBytes then 50 / (s.fs / frameSize) else 0
+
+/-- `tocmode` and `frame_rate` handed to gen_toc (:1313). -/
+def lowTocMode (s : St) (frameSize outDataBytes : Int) : Int :=
+  if s.fs / frameSize ≤ 16 ∧ lowToSilk s frameSize outDataBytes then MODE_SILK_ONLY else lowMode0 s frameSize
+
+def lowTocRate (s : St) (frameSize outDataBytes : Int) : Int :=
+  if s.fs / frameSize ≤ 16 then
+    (if lowToSilk s frameSize outDataBytes then (if s.fs / frameSize = 12 then 25 else 16) else 50)
+  else if lowC1 s frameSize then 50 else s.fs / frameSize
+
+/-- `bw` handed to gen_toc (:1272, :1306-1311). -/
+def lowTocBw (s : St) (frameSize outDataBytes : Int) : Int :=
+  let bw := if s.bandwidth = 0 then BW_NB else s.bandwidth
+  let tocmode := lowTocMode s frameSize outDataBytes
+  if tocmode = MODE_SILK_ONLY ∧ bw > BW_WB then BW_WB
+  else if tocmode = MODE_CELT_ONLY ∧ bw = BW_MB then BW_NB
+  else if tocmode = MODE_HYBRID ∧ bw ≤ BW_SWB then BW_SWB
+  else bw
+
 /-- The ToC-only packet of opus_encoder.c:1270-1321 before CBR padding:
     `(toc without code, packet_code, num_multiframes)`. -/
 def lowBudgetToc (s : St) (frameSize outDataBytes : Int) : Nat × Int × Int :=
-  let frameRate := s.fs / frameSize
-  let tocmode := s.mode
-  let bw := if s.bandwidth = 0 then BW_NB else s.bandwidth
-  let tocmode := if tocmode = 0 then MODE_SILK_ONLY else tocmode
-  let tocmode := if frameRate > 100 then MODE_CELT_ONLY else tocmode
-  let c1 := frameRate = 25 ∧ tocmode ≠ MODE_SILK_ONLY
-  let frameRate := if c1 then 50 else frameRate
-  let packetCode : Int := if c1 then 1 else 0
-  let big := frameRate ≤ 16
-  let toSilk := outDataBytes = 1 ∨ (tocmode = MODE_SILK_ONLY ∧ frameRate ≠ 10)
-  let tocmode := if big ∧ toSilk then MODE_SILK_ONLY else tocmode
-  let packetCode := if big then (if toSilk then (if frameRate ≤ 12 then 1 else 0) else 3) else packetCode
-  let numMulti : Int := if big ∧ ¬ toSilk then 50 / frameRate else 0
-  let frameRate := if big then (if toSilk then (if frameRate = 12 then 25 else 16) else 50) else frameRate
-  let bw := if tocmode = MODE_SILK_ONLY ∧ bw > BW_WB then BW_WB
-            else if tocmode = MODE_CELT_ONLY ∧ bw = BW_MB then BW_NB
-            else if tocmode = MODE_HYBRID ∧ bw ≤ BW_SWB then BW_SWB
-            else bw
-  (genToc tocmode frameRate bw s.streamChannels, packetCode, numMulti)
+  (genToc (lowTocMode s frameSize outDataBytes) (lowTocRate s frameSize outDataBytes)
+     (lowTocBw s frameSize outDataBytes) s.streamChannels,
+   lowCode s frameSize outDataBytes, lowNumMulti s frameSize outDataBytes)
+
+/-- Frame lengths of the ToC-only packet. -/
+def lowLens (s : St) (frameSize outDataBytes : Int) : List Nat :=
+  List.replicate (if lowCode s frameSize outDataBytes = 0 then 1 else if lowCode s frameSize outDataBytes = 1 then 2
+                  else (lowNumMulti s frameSize outDataBytes).toNat) 0
+
+/-- Header bytes of the unpadded ToC-only packet. -/
+def lowHdr0 (s : St) (frameSize outDataBytes : Int) : Bytes :=
+  if lowCode s frameSize outDataBytes = 3 then
+    [(lowBudgetToc s frameSize outDataBytes).1 + 3, (lowNumMulti s frameSize outDataBytes).toNat]
+  else [(lowBudgetToc s frameSize outDataBytes).1 + (lowCode s frameSize outDataBytes).toNat]
+
+/-- Its length (:1316). -/
+def lowRet0 (s : St) (frameSize outDataBytes : Int) : Int := if lowCode s frameSize outDataBytes ≤ 1 then 1 else 2
 
 /-- opus_encoder.c:1270-1332: the low-budget return. -/
 def lowBudget (s : St) (frameSize outDataBytes : Int) (b : SizeBudget) : NatRes :=
-  let (toc, code, numMulti) := lowBudgetToc s frameSize outDataBytes
-  let ret : Int := if code ≤ 1 then 1 else 2
+  let toc := (lowBudgetToc s frameSize outDataBytes).1
+  let ret := lowRet0 s frameSize outDataBytes
   let m := max b.maxDataBytes ret
-  let count : Nat := if code = 0 then 1 else if code = 1 then 2 else numMulti.toNat
-  let lens := List.replicate count 0
-  let hdr0 : Bytes := if code = 3 then [toc + 3, numMulti.toNat] else [toc + code.toNat]
+  let lens := lowLens s frameSize outDataBytes
   if s.useVbr = 0 then
-    let pr := padSpec toc lens ret m
-    let calls : List Call := [(3, [ret, m, pr.1])]
-    if pr.1 ≠ OPUS_OK then natErr s calls OPUS_INTERNAL_ERROR                   -- :1329
+    if (padSpec toc lens ret m).1 ≠ OPUS_OK then natErr s [(3, [ret, m, (padSpec toc lens ret m).1])] OPUS_INTERNAL_ERROR   -- :1329
     else { ret := m, abort := false,
            pkt := { tocCfg := toc, lens, size := m.toNat,
-                    hdr := (match pr.2 with | some r => r.hdr | none => hdr0) },
-           dtx := false, ok := true, st := s, calls }
-  else { ret, abort := false, pkt := { tocCfg := toc, lens, size := ret.toNat, hdr := hdr0 },
+                    hdr := (match (padSpec toc lens ret m).2 with | some r => r.hdr | none => lowHdr0 s frameSize outDataBytes) },
+           dtx := false, ok := true, st := s, calls := [(3, [ret, m, (padSpec toc lens ret m).1])] }
+  else { ret, abort := false, pkt := { tocCfg := toc, lens, size := ret.toNat, hdr := lowHdr0 s frameSize outDataBytes },
          dtx := false, ok := true, st := s, calls := [] }
 
 /-- `voice_est` (opus_encoder.c:1340-1353). -/
@@ -174,36 +231,41 @@ def chanDecide (s : St) (fuzz : Bool) (ve equivRate : Int) (rands : List Int) : 
     ((if equivRate > thr then 2 else 1), rands)
   else (s.channels, rands)
 
+/-- Rate/probability based mode choice (:1416-1446, non-FUZZING build). -/
+def modeThresh (s : St) (o : NatOr) (ve equivRate : Int) : Int :=
+  let thr := o.modeMusic + (ve * ve * (o.modeVoice - o.modeMusic)) / 16384
+  let thr := if s.application = APP_VOIP then thr + 8000 else thr
+  let thr := if s.prevMode = MODE_CELT_ONLY then thr - 4000 else if s.prevMode > 0 then thr + 4000 else thr
+  if s.silkUseDtx ≠ 0 ∧ ve > 100 then MODE_SILK_ONLY
+  else if s.useInBandFEC ≠ 0 ∧ s.lossPerc > (128 - ve) / 16 ∧ (s.fecConfig ≠ 2 ∨ ve > 25) then MODE_SILK_ONLY
+  else if equivRate ≥ thr then MODE_CELT_ONLY else MODE_SILK_ONLY
+
+/-- Automatic mode (:1399-1447): random in the FUZZING build, else `modeThresh`. -/
+def modeAuto (s : St) (fuzz : Bool) (o : NatOr) (ve equivRate : Int) (rands : List Int) : Int × List Int :=
+  if fuzz then
+    if (nextRand rands).1 % 16 = 0 then
+      ((if (nextRand (nextRand rands).2).1 % 2 = 0 then MODE_CELT_ONLY else MODE_SILK_ONLY),
+       (nextRand (nextRand rands).2).2)
+    else ((if s.prevMode = MODE_CELT_ONLY then MODE_CELT_ONLY else MODE_SILK_ONLY), (nextRand rands).2)
+  else (modeThresh s o ve equivRate, rands)
+
+/-- Requested mode (:1394-1454). -/
+def modeReq (s : St) (fuzz : Bool) (o : NatOr) (ve equivRate frameSize maxDataBytes : Int) (rands : List Int)
+    : Int × List Int :=
+  if s.application = APP_RESTRICTED_LOWDELAY then (MODE_CELT_ONLY, rands)
+  else if s.userForcedMode = OPUS_AUTO then
+    ((if maxDataBytes < (if s.fs / frameSize > 50 then 9000 else 6000) * frameSize / (s.fs * 8) then MODE_CELT_ONLY
+      else (modeAuto s fuzz o ve equivRate rands).1), (modeAuto s fuzz o ve equivRate rands).2)
+  else (s.userForcedMode, rands)
+
 /-- opus_encoder.c:1394-1460: requested `st->mode` before the transition logic. -/
 def modeDecide (s : St) (fuzz : Bool) (o : NatOr) (ve equivRate frameSize maxDataBytes : Int) (rands : List Int)
     : Int × List Int :=
-  let frameRate := s.fs / frameSize
-  let (mode, rands) :=
-    if s.application = APP_RESTRICTED_LOWDELAY then (MODE_CELT_ONLY, rands)
-    else if s.userForcedMode = OPUS_AUTO then
-      let (mode, rands) :=
-        if fuzz then
-          let (r1, rands) := nextRand rands
-          if r1 % 16 = 0 then
-            let (r2, rands) := nextRand rands
-            ((if r2 % 2 = 0 then MODE_CELT_ONLY else MODE_SILK_ONLY), rands)
-          else ((if s.prevMode = MODE_CELT_ONLY then MODE_CELT_ONLY else MODE_SILK_ONLY), rands)
-        else
-          let thr := o.modeMusic + (ve * ve * (o.modeVoice - o.modeMusic)) / 16384
-          let thr := if s.application = APP_VOIP then thr + 8000 else thr
-          let thr := if s.prevMode = MODE_CELT_ONLY then thr - 4000 else if s.prevMode > 0 then thr + 4000 else thr
-          let mode := if equivRate ≥ thr then MODE_CELT_ONLY else MODE_SILK_ONLY
-          let mode := if s.useInBandFEC ≠ 0 ∧ s.lossPerc > (128 - ve) / 16 ∧ (s.fecConfig ≠ 2 ∨ ve > 25)
-                      then MODE_SILK_ONLY else mode
-          let mode := if s.silkUseDtx ≠ 0 ∧ ve > 100 then MODE_SILK_ONLY else mode
-          (mode, rands)
-      let mode := if maxDataBytes < (if frameRate > 50 then 9000 else 6000) * frameSize / (s.fs * 8)
-                  then MODE_CELT_ONLY else mode
-      (mode, rands)
-    else (s.userForcedMode, rands)
-  let mode := if mode ≠ MODE_CELT_ONLY ∧ frameSize < s.fs / 100 then MODE_CELT_ONLY else mode
-  let mode := if s.lfe ≠ 0 then MODE_CELT_ONLY else mode
-  (mode, rands)
+  ((if s.lfe ≠ 0 then MODE_CELT_ONLY
+    else if (modeReq s fuzz o ve equivRate frameSize maxDataBytes rands).1 ≠ MODE_CELT_ONLY ∧ frameSize < s.fs / 100
+    then MODE_CELT_ONLY
+    else (modeReq s fuzz o ve equivRate frameSize maxDataBytes rands).1),
+   (modeReq s fuzz o ve equivRate frameSize maxDataBytes rands).2)
 
 /-- Threshold walk of opus_encoder.c:1525-1538 over the candidates FB, SWB, WB, MB. -/
 def bwWalk (th : List Int) (first autoBw equivRate : Int) : List Int → Int
@@ -269,45 +331,70 @@ structure Decided where
   equivRate : Int
   deriving DecidableEq, Repr
 
+/-- `analysis_info.valid` / `is_silence` as the chain sees them (0 when the analysis does not run). -/
+def effValid (s : St) (o : NatOr) : Int := if analysisRuns s then o.aValid else 0
+def effSilence (s : St) (o : NatOr) : Int := if analysisRuns s then o.isSilence else 0
+
+/-- opus_encoder.c:1337-1391: `stream_channels`, `silk_mode.useDTX`; also returns the unused
+    `rand()` values (FUZZING build). -/
+def decChan (s : St) (fuzz : Bool) (o : NatOr) (frameSize : Int) : St × List Int :=
+  let cd := chanDecide s fuzz (voiceEst s)
+              (computeEquivRate s.bitrateBps s.channels (s.fs / frameSize) s.useVbr 0 s.complexity s.lossPerc) o.rands
+  ({ s with streamChannels := cd.1,
+            silkUseDtx := b2i (s.useDtx ≠ 0 ∧ ¬ (effValid s o ≠ 0 ∨ effSilence s o ≠ 0)) }, cd.2)
+
+/-- Result of the mode transition logic :1462-1479. -/
+structure Trans where
+  mode : Int
+  redundancy : Bool
+  celtToSilk : Bool
+  toCelt : Bool
+  deriving DecidableEq, Repr
+
+/-- opus_encoder.c:1462-1479 for requested mode `mode`. -/
+def transDecide (mode prevMode frameSize fs : Int) : Trans :=
+  if prevMode > 0 ∧ ((mode ≠ MODE_CELT_ONLY ∧ prevMode = MODE_CELT_ONLY) ∨
+                      (mode = MODE_CELT_ONLY ∧ prevMode ≠ MODE_CELT_ONLY)) then
+    if mode ≠ MODE_CELT_ONLY then { mode, redundancy := true, celtToSilk := true, toCelt := false }
+    else if frameSize ≥ fs / 100 then { mode := prevMode, redundancy := true, celtToSilk := false, toCelt := true }
+    else { mode, redundancy := false, celtToSilk := false, toCelt := false }
+  else { mode, redundancy := false, celtToSilk := false, toCelt := false }
+
+/-- opus_encoder.c:1394-1491: `st->mode` after the transition logic, and the delayed
+    stereo->mono switch. -/
+def decMode (s : St) (t : Trans) : St :=
+  if s.streamChannels = 1 ∧ s.prevChannels = 2 ∧ s.toMono = 0 ∧ t.mode ≠ MODE_CELT_ONLY ∧ s.prevMode ≠ MODE_CELT_ONLY
+  then { s with mode := t.mode, toMono := 1, streamChannels := 2 }
+  else { s with mode := t.mode, toMono := 0 }
+
+/-- opus_encoder.c:1596-1613: decide_fec, CELT has no mediumband, LFE is narrowband, and the
+    final SILK-only <-> hybrid adjustment. -/
+def decFec (s : St) (er2 : Int) : St :=
+  let fec := decideFec s.useInBandFEC s.lossPerc s.lbrrCoded s.mode s.bandwidth er2
+  let bw := if s.mode = MODE_CELT_ONLY ∧ fec.2 = BW_MB then BW_WB else fec.2
+  let bw := if s.lfe ≠ 0 then BW_NB else bw
+  let mode := if s.mode = MODE_SILK_ONLY ∧ bw > BW_WB then MODE_HYBRID else s.mode
+  let mode := if mode = MODE_HYBRID ∧ bw ≤ BW_WB then MODE_SILK_ONLY else mode
+  { s with lbrrCoded := fec.1, bandwidth := bw, mode }
+
+/-- Equivalent rate after the mode decision (:1494). -/
+def equivRate2 (s : St) (frameSize : Int) : Int :=
+  computeEquivRate s.bitrateBps s.streamChannels (s.fs / frameSize) s.useVbr s.mode s.complexity s.lossPerc
+
 /-- opus_encoder.c:1334-1613: the decision chain for budget `maxDataBytes`. -/
 def decide' (s : St) (fuzz : Bool) (o : NatOr) (frameSize maxDataBytes : Int) : Decided :=
-  let frameRate := s.fs / frameSize
-  let maxRate := frameRate * maxDataBytes * 8
-  let er0 := computeEquivRate s.bitrateBps s.channels frameRate s.useVbr 0 s.complexity s.lossPerc
-  let ve := voiceEst s
-  let cd := chanDecide s fuzz ve er0 o.rands
-  let s : St := { s with streamChannels := cd.1 }
-  let er1 := computeEquivRate s.bitrateBps s.streamChannels frameRate s.useVbr 0 s.complexity s.lossPerc
-  let ran := analysisRuns s
-  let valid := if ran then o.aValid else 0
-  let isSil := if ran then o.isSilence else 0
-  let s := { s with silkUseDtx := b2i (s.useDtx ≠ 0 ∧ ¬ (valid ≠ 0 ∨ isSil ≠ 0)) }
-  let md := modeDecide s fuzz o ve er1 frameSize maxDataBytes cd.2
-  let s : St := { s with mode := md.1 }
-  -- :1462-1479
-  let trans : Bool := decide (s.prevMode > 0 ∧ ((s.mode ≠ MODE_CELT_ONLY ∧ s.prevMode = MODE_CELT_ONLY) ∨
-                                  (s.mode = MODE_CELT_ONLY ∧ s.prevMode ≠ MODE_CELT_ONLY)))
-  let celtToSilk : Bool := trans && decide (s.mode ≠ MODE_CELT_ONLY)
-  let postpone : Bool := trans && !celtToSilk && decide (frameSize ≥ s.fs / 100)
-  let redundancy : Bool := trans && (celtToSilk || postpone)
-  let toCelt : Bool := postpone
-  let s := if postpone then { s with mode := s.prevMode } else s
-  -- :1483-1491
-  let s := if s.streamChannels = 1 ∧ s.prevChannels = 2 ∧ s.toMono = 0 ∧ s.mode ≠ MODE_CELT_ONLY ∧
-              s.prevMode ≠ MODE_CELT_ONLY
-           then { s with toMono := 1, streamChannels := 2 } else { s with toMono := 0 }
-  let er2 := computeEquivRate s.bitrateBps s.streamChannels frameRate s.useVbr s.mode s.complexity s.lossPerc
-  let prefill : Int := if s.mode ≠ MODE_CELT_ONLY ∧ s.prevMode = MODE_CELT_ONLY then 1 else 0
-  let s := autoBandwidthUpd s ve er2
-  let s := bwClamp s maxRate
-  let s := detectedClamp s er2
-  let fec := decideFec s.useInBandFEC s.lossPerc s.lbrrCoded s.mode s.bandwidth er2
-  let s := { s with lbrrCoded := fec.1, bandwidth := fec.2 }
-  let s := if s.mode = MODE_CELT_ONLY ∧ s.bandwidth = BW_MB then { s with bandwidth := BW_WB } else s
-  let s := if s.lfe ≠ 0 then { s with bandwidth := BW_NB } else s
-  let s := if s.mode = MODE_SILK_ONLY ∧ s.bandwidth > BW_WB then { s with mode := MODE_HYBRID } else s
-  let s := if s.mode = MODE_HYBRID ∧ s.bandwidth ≤ BW_WB then { s with mode := MODE_SILK_ONLY } else s
-  { st := s, redundancy, celtToSilk, toCelt, prefill, equivRate := er2 }
+  let a := decChan s fuzz o frameSize
+  let md := modeDecide a.1 fuzz o (voiceEst s)
+              (computeEquivRate s.bitrateBps a.1.streamChannels (s.fs / frameSize) s.useVbr 0 s.complexity s.lossPerc)
+              frameSize maxDataBytes a.2
+  let t := transDecide md.1 s.prevMode frameSize s.fs
+  let b := decMode a.1 t
+  let c := detectedClamp (bwClamp (autoBandwidthUpd b (voiceEst s) (equivRate2 b frameSize))
+                                  ((s.fs / frameSize) * maxDataBytes * 8)) (equivRate2 b frameSize)
+  { st := decFec c (equivRate2 b frameSize), redundancy := t.redundancy, celtToSilk := t.celtToSilk,
+    toCelt := t.toCelt,
+    prefill := (if b.mode ≠ MODE_CELT_ONLY ∧ s.prevMode = MODE_CELT_ONLY then 1 else 0),
+    equivRate := equivRate2 b frameSize }
 
 /-- Is the packet split into several frames (opus_encoder.c:1616)? -/
 def isMulti (s : St) (frameSize : Int) : Bool :=
@@ -354,31 +441,44 @@ def currMax (s : St) (c : MultiCtx) (totSize : Int) : Int :=
   let cm := min (3 * s.bitrateBps / (3 * 8 * s.fs / c.encFs)) (c.maxLenSum / c.nbFrames)
   min (min (c.maxLenSum - totSize) cm) 1276
 
-/-- One iteration `i` of the loop opus_encoder.c:1680-1737. -/
+/-- Contract on silk_Encode across the sub-frames of one packet: SILK does not change its internal
+    sampling rate in the middle of a packet (it switches only after `opusCanSwitch`, which is
+    offered on final frames only, :2117), so every sub-frame carries the same ToC configuration. -/
+def tocStable (cfg0 : Option Nat) (r : FrameRes) : Bool :=
+  match cfg0 with
+  | none => true
+  | some c => decide (r.ret < 1) || decide (c = r.toc)
+
+/-- State handed to sub-frame `i` (:1689-1690). -/
+def subSt (c : MultiCtx) (i : Nat) (s : St) : St :=
+  { s with toMono := 0, nonfinalFrame := b2i ((i : Int) < c.nbFrames - 1) }
+
+/-- Arguments of the call for sub-frame `i` (:1693-1722). -/
+def subIn (c : MultiCtx) (d : Decided) (isSil : Int) (i : Nat) (s : St) (totSize : Int) : FrameIn :=
+  { frameSize := c.encFs, maxDataBytes := currMax s c totSize, isSilence := isSil,
+    redundancy := d.redundancy ∧ ((d.toCelt ∧ (i : Int) = c.nbFrames - 1) ∨ (¬ d.toCelt ∧ i = 0)),
+    celtToSilk := d.celtToSilk, prefill := d.prefill, equivRate := d.equivRate,
+    toCelt := d.toCelt ∧ (i : Int) = c.nbFrames - 1 }
+
+/-- One iteration `i` of the loop opus_encoder.c:1680-1739. -/
 def multiStep (c : MultiCtx) (d : Decided) (isSil : Int) (i : Nat) (fo : FrameOr) (a : MultiAcc) : MultiAcc :=
   match a.fail with
   | some _ => a
   | none =>
-    let last := (i : Int) = c.nbFrames - 1
-    let s := { a.st with toMono := 0, nonfinalFrame := b2i ((i : Int) < c.nbFrames - 1) }
-    let frameToCelt := d.toCelt ∧ last
-    let frameRed := d.redundancy ∧ (frameToCelt ∨ (¬ d.toCelt ∧ i = 0))
-    let cm := currMax s c a.totSize
-    let fi : FrameIn := { frameSize := c.encFs, maxDataBytes := cm, isSilence := isSil,
-                          redundancy := frameRed, celtToSilk := d.celtToSilk, prefill := d.prefill,
-                          equivRate := d.equivRate, toCelt := frameToCelt }
+    let s := subSt c i a.st
+    let fi := subIn c d isSil i a.st a.totSize
     let r := frameNative s fi fo
-    let ok := a.ok && frameOk s fi fo
+    let ok := a.ok && frameOk s fi fo && tocStable a.cfg0 r
     let calls := a.calls ++ r.calls
     if r.abort then { a with st := r.st, calls, ok, fail := some { (natErr r.st calls 0) with abort := true, ok } }
-    else if r.ret < 0 then { a with st := r.st, calls, ok, fail := some { (natErr r.st calls OPUS_INTERNAL_ERROR) with ok } }   -- :1724
+    else if r.ret < 0 then { a with st := r.st, calls, ok, fail := some { (natErr r.st calls OPUS_INTERNAL_ERROR) with ok } }   -- :1726
     else
-      let dtx := if r.ret = 1 then a.dtxCount + 1 else a.dtxCount
       let p : Pkt := { tocCfg := r.toc, lens := [r.payload.toNat], size := r.ret.toNat, hdr := r.hdr }
       let cr := catSpec a.cfg0 a.lens.length p
       let calls := calls ++ [(4, [r.ret, cr])]
-      if cr < 0 then { a with st := r.st, calls, ok, fail := some { (natErr r.st calls OPUS_INTERNAL_ERROR) with ok } }   -- :1733
-      else { st := r.st, totSize := a.totSize + r.ret, dtxCount := dtx,
+      if cr < 0 then { a with st := r.st, calls, ok, fail := some { (natErr r.st calls OPUS_INTERNAL_ERROR) with ok } }   -- :1735
+      else { st := r.st, totSize := a.totSize + r.ret,
+             dtxCount := (if r.ret = 1 then a.dtxCount + 1 else a.dtxCount),
              cfg0 := (match a.cfg0 with | none => some r.toc | some c0 => some c0),
              lens := a.lens ++ [r.payload.toNat], calls, ok, fail := none }
 
@@ -388,51 +488,64 @@ def multiLoop (c : MultiCtx) (d : Decided) (isSil : Int) : Nat → Nat → List 
   | n + 1, i, fos, a =>
     multiLoop c d isSil n (i + 1) fos.tail (multiStep c d isSil i (fos.headD default) a)
 
-/-- opus_encoder.c:1616-1745. -/
+/-- State at loop entry (:1674-1678). -/
+def multiSt0 (s : St) : St :=
+  if s.toMono ≠ 0 then { s with forceChannels := 1 } else { s with prevChannels := s.streamChannels }
+
+/-- opus_encoder.c:1616-1747. -/
 def multiFrame (d : Decided) (isSil : Int) (frameSize outDataBytes cbr : Int) (fos : List FrameOr) : NatRes :=
-  let s := d.st
-  let c := multiCtx s frameSize outDataBytes cbr
-  let bak := s.toMono
-  let s := if bak ≠ 0 then { s with forceChannels := 1 } else { s with prevChannels := s.streamChannels }
+  let c := multiCtx d.st frameSize outDataBytes cbr
   let a := multiLoop c d isSil c.nbFrames.toNat 0 fos
-             { st := s, totSize := 0, dtxCount := 0, cfg0 := none, lens := [], calls := [], ok := true, fail := none }
+             { st := multiSt0 d.st, totSize := 0, dtxCount := 0, cfg0 := none, lens := [], calls := [], ok := true,
+               fail := none }
   match a.fail with
   | some r => r
   | none =>
-    let pad := s.useVbr = 0 ∧ a.dtxCount ≠ c.nbFrames
+    let pad := d.st.useVbr = 0 ∧ a.dtxCount ≠ c.nbFrames
     match outRange (a.cfg0.getD 0) a.lens c.repacketizeLen.toNat pad with
     | .ok r =>
       { ret := r.size, abort := false,
         pkt := { tocCfg := a.cfg0.getD 0, lens := a.lens, size := r.size, hdr := r.hdr },
         dtx := decide (a.dtxCount = c.nbFrames), ok := a.ok,
-        st := { a.st with toMono := bak }, calls := a.calls ++ [(5, [c.repacketizeLen, b2i pad, r.size])] }
-    | .err e => { (natErr { a.st with toMono := bak } (a.calls ++ [(5, [c.repacketizeLen, b2i pad, e.code])])
-                     OPUS_INTERNAL_ERROR) with ok := a.ok }                                                    -- :1741
+        st := { a.st with toMono := d.st.toMono }, calls := a.calls ++ [(5, [c.repacketizeLen, b2i pad, r.size])] }
+    | .err e => { (natErr { a.st with toMono := d.st.toMono } (a.calls ++ [(5, [c.repacketizeLen, b2i pad, e.code])])
+                     OPUS_INTERNAL_ERROR) with ok := a.ok }                                                    -- :1743
     | _ => { (natErr a.st a.calls OPUS_INTERNAL_ERROR) with ok := a.ok }
 
-/-- `opus_encode_native` (opus_encoder.c:1121-1761); `fuzz` selects the FUZZING build's
+/-- State after :1249-1261: analysis results and `st->bitrate_bps`. -/
+def budgetSt (s : St) (o : NatOr) (frameSize outDataBytes : Int) : St :=
+  { (analysisUpd s o) with bitrateBps := (sizeBudget (analysisUpd s o) frameSize outDataBytes).bitrateBps }
+
+/-- Arguments of the single `opus_encode_frame_native` call (:1749). -/
+def singleIn (d : Decided) (isSil frameSize maxDataBytes : Int) : FrameIn :=
+  { frameSize, maxDataBytes, isSilence := isSil, redundancy := d.redundancy, celtToSilk := d.celtToSilk,
+    prefill := d.prefill, equivRate := d.equivRate, toCelt := d.toCelt }
+
+/-- Result of the single-frame path (:1749-1761). -/
+def singleRes (r : FrameRes) (ok : Bool) : NatRes :=
+  { ret := r.ret, abort := r.abort,
+    pkt := { tocCfg := r.toc, lens := [r.payload.toNat], size := r.ret.toNat, hdr := r.hdr },
+    dtx := r.dtx, ok, st := r.st, calls := r.calls }
+
+/-- `opus_encode_native` (opus_encoder.c:1121-1763); `fuzz` selects the FUZZING build's
     random mode / channel decisions. -/
 def encodeNative (s : St) (fuzz : Bool) (frameSize outDataBytes : Int) (o : NatOr) : NatRes :=
   match entryCheck s frameSize outDataBytes with
   | some e => natErr s [] e
   | none =>
-    let s := analysisUpd s o
-    let b := sizeBudget s frameSize outDataBytes
-    let s := { s with bitrateBps := b.bitrateBps }
-    if lowBudgetGate s frameSize b then lowBudget s frameSize outDataBytes b
+    let pre := stOk s && legalFrame s.fs frameSize
+    let b := sizeBudget (analysisUpd s o) frameSize outDataBytes
+    let s1 := budgetSt s o frameSize outDataBytes
+    if lowBudgetGate s1 frameSize b then { (lowBudget s1 frameSize outDataBytes b) with ok := pre }
     else
-      let d := decide' s fuzz o frameSize b.maxDataBytes
-      let isSil := if analysisRuns s then o.isSilence else 0
-      if isMulti d.st frameSize then multiFrame d isSil frameSize outDataBytes b.cbr o.frames
+      let d := decide' s1 fuzz o frameSize b.maxDataBytes
+      let isSil := effSilence s1 o
+      if isMulti d.st frameSize then
+        let r := multiFrame d isSil frameSize outDataBytes b.cbr o.frames
+        { r with ok := pre && r.ok }
       else
-        let fi : FrameIn := { frameSize, maxDataBytes := b.maxDataBytes, isSilence := isSil,
-                              redundancy := d.redundancy, celtToSilk := d.celtToSilk, prefill := d.prefill,
-                              equivRate := d.equivRate, toCelt := d.toCelt }
-        let r := frameNative d.st fi (o.frames.headD default)
-        { ret := r.ret, abort := r.abort,
-          pkt := { tocCfg := r.toc, lens := [r.payload.toNat], size := r.ret.toNat, hdr := r.hdr },
-          dtx := r.dtx, ok := frameOk d.st fi (o.frames.headD default),
-          st := r.st, calls := r.calls }
+        singleRes (frameNative d.st (singleIn d isSil frameSize b.maxDataBytes) (o.frames.headD default))
+          (pre && frameOk d.st (singleIn d isSil frameSize b.maxDataBytes) (o.frames.headD default))
 
 /-- Public entry points `opus_encode` / `opus_encode24` / `opus_encode_float`
     (opus_encoder.c:2523-2594): `frame_size_select`, then `opus_encode_native`.
